@@ -2,6 +2,7 @@ package main
 
 import (
 	"encoding/json"
+	"errors"
 	"flag"
 	"fmt"
 	"reflect"
@@ -15,6 +16,65 @@ import (
 type rIn struct {
 	X int `config:"x" validate:"min=2"`
 	Y int `config:"y"`
+}
+
+// variants of In (UcfgReify IVs): InitDefaults with a valid / an invalid default, Validate()
+type rInD struct {
+	X int `config:"x" validate:"min=2"`
+	Y int `config:"y"`
+}
+
+func (d *rInD) InitDefaults() { d.X = 5 }
+
+type rInB struct {
+	X int `config:"x" validate:"min=2"`
+	Y int `config:"y"`
+}
+
+func (d *rInB) InitDefaults() { d.X = 1 }
+
+type rInV struct {
+	X int `config:"x" validate:"min=2"`
+	Y int `config:"y"`
+}
+
+func (d rInV) Validate() error {
+	if d.X == 13 {
+		return errors.New("unlucky")
+	}
+	return nil
+}
+
+// map types with InitDefaults (MD: a valid default entry, MB: one that violates min=2)
+type rMapD map[string]rIn
+
+func (m *rMapD) InitDefaults() { (*m)["d"] = rIn{X: 5} }
+
+type rMapB map[string]rIn
+
+func (m *rMapB) InitDefaults() { (*m)["d"] = rIn{X: 1} }
+
+var rInTys = map[string]reflect.Type{"iv:plain": reflect.TypeOf(rIn{}), "iv:dgood": reflect.TypeOf(rInD{}), "iv:dbad": reflect.TypeOf(rInB{}),
+	"iv:val13": reflect.TypeOf(rInV{}), "": reflect.TypeOf(rIn{})}
+
+// rTypeOf: the Go type of field F for a (type, variant) pair
+func rTypeOf(ty, iv string) reflect.Type {
+	in := rInTys[iv]
+	switch ty {
+	case "S":
+		return in
+	case "PS":
+		return reflect.PtrTo(in)
+	case "LS":
+		return reflect.SliceOf(in)
+	case "MS":
+		return reflect.MapOf(reflect.TypeOf(""), in)
+	case "MD":
+		return reflect.TypeOf(rMapD(nil))
+	case "MB":
+		return reflect.TypeOf(rMapB(nil))
+	}
+	return rTys[ty]
 }
 
 type rGVal struct {
@@ -93,7 +153,10 @@ func rBuildVal(g rGVal, t reflect.Type) reflect.Value {
 		p.Elem().Set(rBuildVal(*g.P, t.Elem()))
 		return p
 	case "in":
-		return reflect.ValueOf(rIn{g.X, g.Y})
+		v := reflect.New(t).Elem()
+		v.Field(0).SetInt(int64(g.X))
+		v.Field(1).SetInt(int64(g.Y))
+		return v
 	case "slice":
 		if g.IsNil {
 			return reflect.Zero(t)
@@ -125,8 +188,7 @@ func rEqVal(g rGVal, v reflect.Value) bool {
 	case "ptr":
 		return v.Kind() == reflect.Ptr && !v.IsNil() && rEqVal(*g.P, v.Elem())
 	case "in":
-		in, ok := v.Interface().(rIn)
-		return ok && in.X == g.X && in.Y == g.Y
+		return v.Kind() == reflect.Struct && int(v.Field(0).Int()) == g.X && int(v.Field(1).Int()) == g.Y
 	case "slice":
 		if v.Kind() != reflect.Slice || v.IsNil() != g.IsNil || v.Len() != len(g.Xs) {
 			return false
@@ -183,6 +245,7 @@ type reifyObs struct {
 
 type reifyCase struct {
 	Pol string          `json:"pol"`
+	IV  string          `json:"iv"`
 	Ty  string          `json:"ty"`
 	Vs  []string        `json:"vs"`
 	Old rGVal           `json:"old"`
@@ -198,7 +261,7 @@ func runReify(c *reifyCase) (o reifyObs) {
 	if len(c.Vs) > 0 {
 		tag = fmt.Sprintf(` validate:"%s"`, rVTag[c.Vs[0]])
 	}
-	ft := rTys[c.Ty]
+	ft := rTypeOf(c.Ty, c.IV)
 	st := reflect.StructOf([]reflect.StructField{
 		{Name: "G", Type: reflect.TypeOf(0), Tag: `config:"g"`},
 		{Name: "F", Type: ft, Tag: reflect.StructTag(`config:"f"` + tag)},
@@ -312,6 +375,7 @@ func reifyReplay(args []string) int {
 		rep.nontrivial(raw[:len(raw)*2/3])
 		o := runReify(&c)
 		rep.class("outcome:" + o.Kind)
+		rep.class("variant:" + c.IV)
 		rep.classify(raw, c.Exp.Ideal, c.Exp.Alts, eqReify(o), func() interface{} { return o }, "unpack/"+c.Ty)
 	}, rep)
 	return rep.finish()
